@@ -284,10 +284,20 @@ class _EvaluatorCompiler:
 
         return self._straight_evaluate(operator, eval_left, eval_right, clause)
 
+    def visit_mod_binary_op(self, operator, eval_left, eval_right, clause):
+        # the SQL remainder takes the sign of the dividend (truncating
+        # division); Python's % takes the sign of the divisor
+        def mod(a, b):
+            remainder = abs(a) % abs(b)
+            return -remainder if a < 0 else remainder
+
+        return self._straight_evaluate_numeric_only(
+            mod, eval_left, eval_right, clause
+        )
+
     visit_add_binary_op = _straight_evaluate_numeric_only
     visit_mul_binary_op = _straight_evaluate_numeric_only
     visit_sub_binary_op = _straight_evaluate_numeric_only
-    visit_mod_binary_op = _straight_evaluate_numeric_only
     visit_truediv_binary_op = _straight_evaluate_numeric_only
     visit_lt_binary_op = _straight_evaluate
     visit_le_binary_op = _straight_evaluate
